@@ -927,9 +927,13 @@ fn fam_fifo<T: Payload>(c: &Case, cx: &mut Ctx) -> Outcome {
     sc.expect(sc.waiters() == n - 1, "C15", || format!("after cancelling one of {} blocked senders the wait list must hold {}", n, n - 1));
     // consume everything with the chosen receive variant; the linearizability check (registration order pinned) decides the exact order
     let rk = pr_kinds()[c.d as usize % 7];
-    let total = sc.cap.unwrap_or(0) + n - 1;
+    let mut total = sc.cap.unwrap_or(0) + n - 1;
     let mut got = 0;
-    for _ in 0..(total + 2) {
+    // after every receive a late-comer tries to get in (non-blocking): while senders are still blocked the freed
+    // place belongs to the oldest of them (refill), so the late-comer must be refused; whatever it is told, the
+    // reference channel has to be able to explain it, and if it is accepted it must come out after everybody else
+    let late = c.b % 2 == 0;
+    for _ in 0..(2 * total + 6) {
         if got >= total {
             break;
         }
@@ -938,6 +942,12 @@ fn fam_fifo<T: Payload>(c: &Case, cx: &mut Ctx) -> Outcome {
             Res::Val(_) => got += 1,
             Res::Drained(v) => got += v.len(),
             _ => {}
+        }
+        if late && got < total && sc.waiters() > 0 {
+            sc.mexec(Op::TrySend);
+            if sc.main_result() == Res::True {
+                total += 1;
+            }
         }
     }
     sc.expect(got == total, "C01", || format!("{} values were accepted/blocked but only {} could be received", total, got));
